@@ -55,6 +55,16 @@ def handle : Handler := fun op args =>
       match weightedAverage d with
       | some (a, se) => "ok " ++ showRat a ++ " " ++ showRat se
       | none => "undef"
+  | "c19.dpcmp" => withArgs (do let a ← pRat; let b ← pRat; let c ← pRat; let d ← pRat; pure (a, b, c, d)) args fun (a, b, c, d) =>
+      let x : DP := ⟨a, b⟩
+      let y : DP := ⟨c, d⟩
+      let bit (v : Bool) : String := if v then "1" else "0"
+      "ok " ++ bit (dpLt x y) ++ " " ++ bit (dpGt x y) ++ " " ++ bit (dpEq x y)
+  | "c19.dpsort" => withArgs (pList (do let v ← pRat; let w ← pRat; pure (⟨v, w⟩ : DP))) args fun d =>
+      let asc := sortDP d
+      let desc := sortDPDesc d
+      "ok " ++ toString d.length ++ " " ++ showRats (asc.map (·.value)) ++ " " ++ showRats (desc.map (·.value)) ++ " "
+        ++ toString (match d with | [] => 0 | x :: _ => countDP d x)
   | _ => none
 
 def main : IO Unit := driverMain handle
